@@ -65,6 +65,15 @@ where
             return Err(InvalidView);
         }
 
+        // The root sits at the very end of the data, a buffer which puts it at an address
+        // that is not aligned for it can not be a valid archive, no reference to it may
+        // be formed.
+        let root_pos = data_bytes.len() - mem::size_of::<T::Archived>();
+        let root_addr = data_bytes.as_ptr() as usize + root_pos;
+        if root_addr % mem::align_of::<T::Archived>() != 0 {
+            return Err(InvalidView);
+        }
+
         let view = unsafe { rkyv::archived_root::<T>(data_bytes) };
 
         Ok(Self { data, view })
